@@ -590,3 +590,70 @@ def length_field_cases():
                 if l > 0:
                     out.append(hdr + b"y" * (l - 1))
     return out
+
+
+def dag_tuple_programs():
+    """Tuples whose children are one and the same object, level upon level (DUP, or the memo): 2^n paths through ~2n opcodes.
+    Nothing in Decode may walk such a value path by path (it is built, stored, returned by reference); used as a dict key its hash
+    is exponential in CPython too, so here it is only built, put into lists / tuples / a memo slot, and returned."""
+    out = []
+    for n in (20, 40, 64, 200):
+        dup = b"K\x01K\x01\x86" + b"2\x86" * n
+        memo = b"K\x01K\x01\x86q\x00" + b"h\x00h\x00\x86q\x00" * n
+        out += [dup + b".", memo + b".", b"]" + dup + b"a.", b"(" + dup + b"t.", b"\x80\x04" + dup + b"\x94.", b"}K\x01" + dup + b"s.",
+                dup + b"\x85\x85.", dup + b"Q.", b"(" + dup + b"l.", b"](" + memo + b"h\x00e."]
+    return out
+
+
+def magic_prefix_programs():
+    """Bytes that often stand in front of data (byte order marks, compression and archive magic, blanks, a shebang, a newline) in
+    front of a pickle: the first of them is the opcode, whatever follows."""
+    out = []
+    for pre in (b"\xef\xbb\xbf", b"\xff\xfe", b"\xfe\xff", b"\xef\xbb", b"\xef", b"\x1f\x8b\x08", b"\x78\x9c", b"BZh9", b"PK\x03\x04",
+                b"\xfd7zXZ\x00", b"#!", b" ", b"\n", b"\r\n", b"\t", b"\x00", b"\x00\x00\x00\x01", b"\xff", b"\xef\xbb\xbf\xef\xbb\xbf"):
+        for body in (b"N.", b"K\x01.", b"\x80\x02N.", b"", b"."):
+            out.append(pre + body)
+            out.append(b"N." + pre + body)        # ... and in front of the second pickle of a stream
+    return out
+
+
+def escape_sequence_lines():
+    """UNICODE / STRING arguments made of backslash tokens in every order: a literal backslash pair, a backslash before an ordinary
+    character, \\uXXXX, \\UXXXXXXXX, \\xXX, an ordinary character - what follows what decides how a run of backslashes is read."""
+    toks = [b"\\\\", b"\\b", b"\\u1234", b"\\U0001f600", b"a", b"\\x41", b"\\u005c", b"\\", b"\\u000a", b"\\n", b"\\'"]
+    out = []
+    for a in toks:
+        for b in toks:
+            out.append(a + b)
+            for c in (b"\\u1234", b"\\\\", b"a", b"\\u005c", b"\\U0001f600"):
+                out.append(a + b + c)
+    return out
+
+
+def nested_tuple_key_programs():
+    """Dict keys that are tuples nested 1 .. 200 levels deep (hashable in Python whatever the depth), through DICT, SETITEM and SETITEMS."""
+    out = []
+    for depth in (1, 2, 15, 16, 17, 18, 31, 32, 33, 40, 64, 200):
+        key = b"K\x01" + b"\x85" * depth
+        out += [b"}" + key + b"K\x02s.", b"(" + key + b"K\x02d.", b"}(" + key + b"K\x02u.", b"}q\x00" + key + b"K\x02sh\x00.",
+                b"}G?\xf0\x00\x00\x00\x00\x00\x00" + b"\x85" * depth + b"K\x03s" + key + b"K\x02s."]
+    return out
+
+
+def bytestring_tuple_key_programs():
+    """Tuple keys with Python-2 str members next to their unicode / bytes twins: (u'a', u'b'), (u'a', b'b'), (b'a', u'b'), (b'a', b'b')
+    are four keys; ('a', 'b') with py2 strs equals all of them under og-rek's documented equality (StrictUnicode on)."""
+    U = lambda t: b"X" + len(t).to_bytes(4, "little") + t       # noqa: E731
+    B = lambda t: b"C" + bytes([len(t)]) + t                      # noqa: E731
+    S = lambda t: b"U" + bytes([len(t)]) + t                      # noqa: E731
+    out = []
+    for n in (2, 3):
+        import itertools
+        variants = [b"".join(f(b"k%d" % i) for i, f in enumerate(fs)) + (b"\x86" if n == 2 else b"\x87")
+                    for fs in itertools.product((U, B), repeat=n)]
+        twin = b"".join(S(b"k%d" % i) for i in range(n)) + (b"\x86" if n == 2 else b"\x87")
+        for k in range(1, len(variants) + 1):
+            pre = b"".join(v + bytes([75, j]) for j, v in enumerate(variants[:k]))
+            out += [b"\x80\x03(" + pre + twin + b"Kcd.", b"\x80\x03}(" + pre + b"u" + twin + b"Kcs.", b"\x80\x03}(" + pre + twin + b"Kcu.",
+                    b"\x80\x03}q\x00(" + pre + b"uh\x00" + twin + b"Kcs."]
+    return out
